@@ -469,6 +469,22 @@ theorem c20_reinit_keeps_count (P : Prog) (s s' : State) (t : Nat) (rest : List 
   subst h
   exact ⟨rfl, rfl, rfl, rfl, rfl, rfl, fun j hj => by simp [cont, upd_apply, hj], rfl, rfl, fun hp => by simp [cont, hp]⟩
 
+/-- **C20 (launch marks the handle)**: when `pthread_create` has succeeded, `aws_thread_launch` leaves the caller's handle
+JOINABLE for a manual thread and MANAGED for a managed one *whatever state the handle was in before* — in particular a
+handle that went through an earlier launch / join cycle (JOIN_COMPLETED) is joinable again, so the next
+`aws_thread_join` on it is a real join (`c20_join_needs_exit`: it waits for the function and the at-exit callbacks of
+the new thread).  Nothing else changes in that step. -/
+theorem c20_launch_marks_joinable (P : Prog) (s s' : State) (t k : Nat) (rest : List Instr)
+    (h : exec P s t (.createRet k) rest = some s') :
+    s'.hstate k = (if P.managed k then HState.managed else HState.joinable) ∧ (∀ j, j ≠ k → s'.hstate j = s.hstate j) ∧
+    s'.count = s.count ∧ s'.pending = s.pending ∧ s'.wLive = s.wLive ∧ s'.log = s.log ∧ (∀ j, j ≠ t → s'.th j = s.th j) ∧
+    (expand P s' t (.join k) = if P.managed k then [.logJoin k] else [.joinU k]) := by
+  simp only [exec, Option.some.injEq] at h
+  subst h
+  refine ⟨by simp [pushW, cont], fun j hj => by simp [pushW, cont, upd_apply, hj], rfl, rfl, rfl, rfl,
+    fun j hj => by simp [pushW, cont, upd_apply, hj], ?_⟩
+  by_cases hm : P.managed k = true <;> simp [expand, pushW, cont, hm]
+
 /-! ### managed-join timeout: the model's arithmetic is the C arithmetic
 
 `AwsVerif.Gen.Threads` holds the expressions of `aws_thread_join_all_managed`, its wait predicate and
